@@ -9,6 +9,7 @@ is recorded (rule id, count, before/after) in the unit's meta for the evidence.
 import os
 import re
 import hashlib
+import dataclasses
 from dataclasses import dataclass, field
 from typing import Optional
 
@@ -565,6 +566,17 @@ def build_unit(unit: Unit, cover=False, prelude_dir=None, skip=()):
             imps = s.find_impls(item.header)
             if not imps:
                 raise LostAnchor(f"{item.file} :: {item.header}: impl not found")
+        # R7b: a trait impl checked as an inherent impl -> its associated types are substituted textually
+        if item.header is not None and item.header_out and item.header_out != item.header:
+            extra = []
+            for imp_ in s.find_impls(item.header):
+                for ch in imp_.children():
+                    if ch.kind == "type":
+                        mt = re.match(r'(?s)\s*type\s+(\w+)\s*=\s*(.*?);', ch.text[ch.sig_start - ch.start:])
+                        if mt:
+                            extra.append(("R7b", r'\bSelf::' + mt.group(1) + r'\b', mt.group(2).strip()))
+            if extra:
+                item = dataclasses.replace(item, fns=[dataclasses.replace(f_, subst=list(f_.subst) + extra) for f_ in item.fns])
         for spec in item.fns:
             if spec.as_const:
                 cst = s.find_const(item.header, spec.name)
